@@ -114,7 +114,7 @@ theorem dispatch_fmod : ∃ k, expect "fmod" m [.d x, .d y] ta = bin x y k :=
 theorem dispatch_quantize : ∃ k, expect "quantize" m [.d x, .d y] ta = bin x y k :=
   ⟨fun a b => exactD (quantizeD m a b), rfl⟩
 theorem dispatch_fdim : ∃ k, expect "fdim" m [.d x, .d y] ta = bin x y k :=
-  ⟨fun a b => exactD (fdimD m a b), rfl⟩
+  ⟨fun _ _ => .rel "a canonical encoding; bits set on entry still set" (fun r fin fout => match r with | [.d b] => isCanonical b && (fout ||| fin == fout) | _ => false), rfl⟩
 theorem dispatch_next_after : ∃ k, expect "next_after" m [.d x, .d y] ta = bin x y k :=
   ⟨fun a b => exactD (nextAfterD a b), rfl⟩
 theorem dispatch_next_toward : ∃ k, expect "next_toward" m [.d x, .d y] ta = bin x y k :=
@@ -573,24 +573,36 @@ example : decode 0x30400000000000000000000000000001 = .fin false 1 0 := by decid
 example : expect "square_root" .rne [.d 0xfe000000000000000000000000000007] =
     .oneOf [[.d 0xfc000000000000000000000000000007]] fInvalid := by
   rw [nan_square_root _ _ _ (by decide +kernel)]
-  decide +kernel
+  have h1 : encode (quietNaN (decode 0xfe000000000000000000000000000007)) = 0xfc000000000000000000000000000007 := by
+    decide +kernel
+  have h2 : (decode 0xfe000000000000000000000000000007).isSNaN = true := by decide +kernel
+  rw [h1, h2]; rfl
 
-/-- 1 + qNaN(5) = qNaN(5), no flag -/
+/-- 1 + qNaN(5) = qNaN(5), no flag (any rounding mode) -/
 example : expect "addition" .rup [.d 0x30400000000000000000000000000001, .d 0x7c000000000000000000000000000005] =
     .oneOf [[.d 0x7c000000000000000000000000000005]] 0 := by
   rw [(nanOps2_cases "addition" (by decide) _ _ _ _).2.1 (by decide +kernel) (by decide +kernel)]
-  decide +kernel
+  have h1 : encode (quietNaN (decode 0x7c000000000000000000000000000005)) = 0x7c000000000000000000000000000005 := by
+    decide +kernel
+  have h2 : (decode 0x7c000000000000000000000000000005).isSNaN = false := by decide +kernel
+  rw [h1, h2]; rfl
 
 /-- minNum(qNaN(5), 1) = 1, no flag -/
 example : expect "min_num" .rne [.d 0x7c000000000000000000000000000005, .d 0x30400000000000000000000000000001] =
     exactly [.d 0x30400000000000000000000000000001] 0 := by
   rw [(min_num_clauses _ _ _ _).2.2.1 (by decide +kernel) (by decide +kernel) (by decide +kernel)]
-  decide +kernel
+  have h1 : encode (decode 0x30400000000000000000000000000001) = 0x30400000000000000000000000000001 := by
+    decide +kernel
+  rw [h1]
 
 /-- maxNumMag(1, −sNaN(7)) = −qNaN(7) with invalid -/
 example : expect "max_num_mag" .rne [.d 0x30400000000000000000000000000001, .d 0xfe000000000000000000000000000007] =
     .oneOf [[.d 0xfc000000000000000000000000000007]] fInvalid := by
   rw [(max_num_mag_clauses _ _ _ _).1 (Or.inr (by decide +kernel))]
-  decide +kernel
+  have h0 : decode 0x30400000000000000000000000000001 = .fin false 1 0 := by decide +kernel
+  have h1 : decode 0xfe000000000000000000000000000007 = .nan true true 7 := by decide +kernel
+  have h2 : encode (.nan true false 7) = 0xfc000000000000000000000000000007 := by decide +kernel
+  rw [h0, h1]
+  simp only [List.filter, Datum.isNaN, List.map, quietNaN, h2]
 
 end Dec.C12Ops
